@@ -194,12 +194,12 @@ Section Pending.
       + (* KBlock *) destruct (completed (st s n)); [apply NN; ll|]. destruct (block_ended (st s n)) eqn:BE.
         * unfold block_release. apply NN. eapply le_trans; [|apply le_mark_completed]. apply le_set_ns. cbn. rewrite BE. exact id.
         * destruct (lock_acquired (st s n)); exact C.
-      + (* KEndBlock *) cbn [outcome_ok]. set (s1 := match locked_blocks p s with [] => s | old :: rest => _ end).
+      + (* KEndBlock *) cbn [outcome_ok]. set (s1 := match active_blocks p s with [] => s | old :: rest => _ end).
         assert (H1 : I s1).
-        { unfold s1. destruct (locked_blocks p s) as [|old rest]; [exact C|]. apply I_end_block. apply (I_le s); [apply le_with_tag|exact C]. }
+        { unfold s1. destruct (active_blocks p s) as [|old rest]; [exact C|]. apply I_end_block. apply (I_le s); [apply le_with_tag|exact C]. }
         apply (I_le s1); [ll|exact H1].
-      + (* KEndBlocks *) cbn [outcome_ok]. apply (I_le (with_tag (fold_left (end_block p) (locked_blocks p s) s) None)); [ll|].
-        apply (I_le (fold_left (end_block p) (locked_blocks p s) s)); [apply le_with_tag|]. now apply I_end_blocks.
+      + (* KEndBlocks *) cbn [outcome_ok]. apply (I_le (with_tag (fold_left (end_block p) (active_blocks p s) s) None)); [ll|].
+        apply (I_le (fold_left (end_block p) (active_blocks p s) s)); [apply le_with_tag|]. now apply I_end_blocks.
       + (* KWatch *) destruct (negb (interrupt_registered (st s n))); [now apply I_register|]. destruct (negb b); [exact C|].
         destruct (cancelled (st s n)); [exact C|]. unfold watch_await. destruct (activated (st s n)); [exact C|].
         destruct (cancelled (st s n)); [exact C|]. unfold try_activate.
